@@ -259,6 +259,15 @@ func runC01(tier string, seed int64, outdir string, replay string) error {
 			return fmt.Errorf("corpus case fresh lock of a dead holder: %v", err)
 		}
 		c01Emit(w, cs, o)
+		// a slow holder: 12 s inside the issuer (beyond the staleness bound of 10 s); the waiter must still be
+		// waiting afterwards because the holder's lock file is kept fresh
+		cs = c01issCase{Threads: []c01issThread{{Prog: "obtain", Name: c01nmCanon}, {Prog: "obtain", Name: c01nmCanon}}, Policy: "seq",
+			Pause: map[string]string{"0": "IssueEnd:"}, HoldMs: map[string]int{"0": 12000}, Backend: "file", Class: "generic"}
+		o, err = c01RunIssCase(cs)
+		if err != nil {
+			return fmt.Errorf("corpus case slow holder: %v", err)
+		}
+		c01Emit(w, cs, o)
 	}
 	r := rand.New(rand.NewSource(seed))
 	n := 1100
